@@ -140,7 +140,7 @@ def run(module, cfg=None, workers=None, simulate=None, depth=None, seed=None, en
 
 def sany(module):
     wd = workdir()
-    p = subprocess.run(["java", "-cp", JAR + ":" + CM, "tla2sany.SANY", module + ".tla"],
+    p = subprocess.run(["java", "-Djava.io.tmpdir=" + util.subdir("jtmp"), "-cp", JAR + ":" + CM, "tla2sany.SANY", module + ".tla"],
                        cwd=wd, capture_output=True, text=True, timeout=120)
     ok = p.returncode == 0 and "Semantic errors" not in p.stdout and "***Parse Error***" not in p.stdout \
         and "Fatal" not in p.stdout and "Could not find module" not in p.stdout
